@@ -186,6 +186,7 @@ type Exec struct {
 	threads []*Thread
 	cleanup []func()
 	arrive  int64
+	epoch   int64 // decision points taken so far (quiescence epoch of arriving frames)
 	res     explore.Result
 	obs     []string
 	start   time.Time
@@ -379,7 +380,7 @@ func (c *Conn) readClient() {
 			x.ords[k]++
 		}
 		x.arrive++
-		f.seq = x.arrive
+		f.seq = x.epoch<<24 | x.arrive&0xffffff
 		x.mu.Unlock()
 		c.mu.Lock()
 		if c.closed {
@@ -436,7 +437,7 @@ func (c *Conn) readServer() {
 		x.mu.Lock()
 		auto := x.auto
 		x.arrive++
-		seq := x.arrive
+		seq := x.epoch<<24 | x.arrive&0xffffff
 		x.mu.Unlock()
 		c.mu.Lock()
 		var s *slot
@@ -597,7 +598,20 @@ func (x *Exec) enabled() []event {
 		}
 		c.mu.Unlock()
 	}
-	sort.SliceStable(frames, func(i, j int) bool { return frames[i].seq < frames[j].seq })
+	// Arrival order across connections, by quiescence epoch (upper bits of
+	// seq); frames that arrived during the same epoch were produced by
+	// concurrently running goroutines, whose relative order the controller
+	// does not own: order those canonically by label instead.
+	sort.SliceStable(frames, func(i, j int) bool {
+		ei, ej := frames[i].seq>>24, frames[j].seq>>24
+		if ei != ej {
+			return ei < ej
+		}
+		if frames[i].label != frames[j].label {
+			return frames[i].label < frames[j].label
+		}
+		return frames[i].seq < frames[j].seq
+	})
 	evs = append(evs, frames...)
 	return evs
 }
@@ -660,7 +674,7 @@ func (c *Conn) faultReq(fl string) {
 		}
 		c.x.mu.Lock()
 		c.x.arrive++
-		seq := c.x.arrive
+		seq := c.x.epoch<<24 | c.x.arrive&0xffffff
 		c.x.mu.Unlock()
 		c.slots = append(c.slots, &slot{req: f, resp: fb, seq: seq})
 		c.mu.Unlock()
@@ -903,6 +917,9 @@ func (x *Exec) run() {
 				}
 			}
 			x.res.Points = append(x.res.Points, explore.Point{Labels: labels, Chosen: choice})
+		x.mu.Lock()
+		x.epoch++
+		x.mu.Unlock()
 			x.Logf("burst %d: %s of %v", pi, labels[choice], labels)
 			for i, e := range plain {
 				if choice > 0 && i == choice-1 {
@@ -931,6 +948,9 @@ func (x *Exec) run() {
 			}
 		}
 		x.res.Points = append(x.res.Points, explore.Point{Labels: labels, Chosen: choice})
+		x.mu.Lock()
+		x.epoch++
+		x.mu.Unlock()
 		x.Logf("point %d: %s   (of %d: %v)", pi, labels[choice], len(labels), labels)
 		steps++
 		if choice == len(evs) {
